@@ -177,6 +177,17 @@ func (n *node) GetModuleByPrefix(
 		// The local prefix may be ommitted or used explicitly
 		return root, nil
 	}
+	if root.Type() == NodeSubmodule {
+		// In a submodule the local prefix is the one given in belongs-to,
+		// and it designates the module the submodule belongs to.
+		if bt := root.ChildByType(NodeBelongsTo); bt != nil && bt.Prefix() == pfx {
+			if r, ok := modules[bt.Name()]; ok {
+				if mod, ok := r.tree.Root.(Node); ok {
+					return mod, nil
+				}
+			}
+		}
+	}
 	mname, ok := getPfxName(root, pfx)
 	if !ok {
 		if !skipUnknown {
